@@ -274,4 +274,43 @@ example : ((applyCreateOv exampleRf.createOv =<< runSteps exampleRf.tmpl example
     some [some "v1", some "ClusterRole", none, none] := by decide
 end example_
 
+/-! ## key conversion (F18): the pin is applied after CEL keys have become text -/
+
+/-- whatever CEL value the template / overlays produced — typed keys and all — the object that
+    `_pin_identity` leaves after `convert_bools` carries apiConfig's identity -/
+theorem identity_survives_key_conversion (t : Target) (c : CVal) (kvs : Fields)
+    (h : convert c = .obj kvs) : Pinned t (pinIdentity t (convert c)) := by
+  rw [h]
+  exact forced_wins_pinned (.obj kvs) t
+
+/-- the pin is idempotent on what it produced: pinning the converted object is not undone by a
+    second conversion-free pass (the patch path pins, compares, and sends the same object) -/
+theorem pin_of_pinned_is_pinned (t : Target) (v : JVal) (kvs : Fields) (h : v = .obj kvs) :
+    Pinned t (pinIdentity t (pinIdentity t v)) := by
+  subst h
+  simp only [pinIdentity]
+  cases hd : deepOverlay (JVal.obj kvs) (forced t) with
+  | obj m => exact forced_wins_pinned (.obj m) t
+  | null | bool _ | int _ | flt _ | str _ | arr _ =>
+    have := forced_wins_pinned (.obj kvs) t
+    rw [hd] at this
+    simp [Pinned, getKey] at this
+
+/-- why the pin has to come AFTER the conversion: a metadata map that is pinned as a CEL value (its text
+    key `name` holds apiConfig's name) converts to one that names another object, because the bytes key
+    whose base64 text is "name" folds onto it.  (The failing input of F18, in the model.) -/
+def foldingMetadata : CVal :=
+  .map [(.text "name", .plain (.str "obj")), (.text "namespace", .plain (.str "ns1")),
+        (.bytes "name", .plain (.str "evil-name"))]
+
+theorem conversion_can_fold_onto_identity :
+    metaKey "name" (convert (.map [(.text "metadata", foldingMetadata)])) = some (.str "evil-name") := by
+  rfl
+
+/-- ... and with the pin after the conversion the same value is sent under apiConfig's identity -/
+example : metaKey "name" (pinIdentity ⟨"v1", "Thing", "obj", some "ns1"⟩
+    (convert (.map [(.text "metadata", foldingMetadata)]))) = some (.str "obj") := by
+  rfl
+
+
 end Koreo.C06
